@@ -15,6 +15,7 @@ import (
 	"os"
 	"strings"
 	"sync"
+	"sync/atomic"
 	"testing"
 	"time"
 
@@ -673,7 +674,7 @@ func TestC10Close(t *testing.T) {
 func TestC10Partial(t *testing.T) {
 	stats.ScaledChecks(4, 5, func() {
 		rapid.Check(t, func(t *rapid.T) {
-			target := rapid.SampledFrom([]string{"listener", "dialer", "pipeA", "pipeB", "context"}).Draw(t, "target")
+			target := rapid.SampledFrom([]string{"listener", "dialer", "pipeA", "pipeB", "context", "pipeFromAttachingHook", "pipeFromAttachedHook"}).Draw(t, "target")
 			tr := rapid.SampledFrom([]string{"inproc", "tcp", "ipc", "ws"}).Draw(t, "transport")
 			doc := map[string]interface{}{"test": "TestC10Partial", "target": target, "transport": tr, "rseed": os.Getenv("VERIF_RSEED")}
 			fail := func(k, f string, a ...interface{}) {
@@ -731,10 +732,31 @@ func TestC10Partial(t *testing.T) {
 				return
 			}
 			S, A, B := fixture.New("bus"), fixture.New("bus"), fixture.New("bus")
-			defer S.Close()
-			defer A.Close()
-			defer B.Close()
-			sev, aev, bev := fixture.Hook(S), fixture.Hook(A), fixture.Hook(B)
+			// a wedged socket must not wedge the report
+			defer fixture.Within(prompt, func() { _ = S.Close(); _ = A.Close(); _ = B.Close() })
+			// for the two hook targets: the callback itself closes the next pipe, under a watchdog
+			var hookArmed int32
+			hookClosed := make(chan bool, 4)
+			sev := fixture.HookWith(S, func(ev mangos.PipeEvent, p mangos.Pipe) {
+				var want mangos.PipeEvent = mangos.PipeEventAttaching
+				if target == "pipeFromAttachedHook" {
+					want = mangos.PipeEventAttached
+				}
+				if ev == want && atomic.CompareAndSwapInt32(&hookArmed, 1, 0) {
+					done := make(chan struct{})
+					func() {
+						// Close is called on the callback's own goroutine, as an application would
+						tm := time.AfterFunc(prompt, func() { hookClosed <- false })
+						_ = p.Close()
+						if tm.Stop() {
+							hookClosed <- true
+						}
+						close(done)
+					}()
+					<-done
+				}
+			})
+			aev, bev := fixture.Hook(A), fixture.Hook(B)
 			addrS, L, err := fixture.Listen(S, tr)
 			if err != nil {
 				t.Fatalf("harness: %v", err)
@@ -759,6 +781,22 @@ func TestC10Partial(t *testing.T) {
 					pipeA = p
 				} else {
 					pipeB = p
+				}
+			}
+			if strings.HasPrefix(target, "pipeFrom") {
+				// a third peer connects; the socket's callback closes that pipe right away
+				C := fixture.New("bus")
+				defer C.Close()
+				atomic.StoreInt32(&hookArmed, 1)
+				go func() { _, _ = fixture.Dial(C, addrS) }()
+				select {
+				case ok := <-hookClosed:
+					if !ok {
+						fail("close-hangs", "Pipe.Close called from the socket's own pipe-event callback did not return within %v", prompt)
+						return
+					}
+				case <-time.After(2 * prompt):
+					t.Fatalf("harness: the third peer's connection never reached the callback")
 				}
 			}
 			var cerr error
